@@ -11,7 +11,7 @@ import corechecks
 
 THEOREMS = ['C01_invariant', 'C01_step', 'C01_association', 'C01_partition', 'C01_nodupFast']
 MODULE = [('NautilusVerif.Properties.C01', THEOREMS), ('NautilusVerif.Properties.CoreRun', ['Run_phase', 'C01_run']),
-          ('NautilusVerif.Properties.CoreTie', ['Core_tie_addBound', 'Core_tie_addSamples', 'Core_tie_sampleShell', 'Core_tie_shellAssociation'])]
+          *common.core_tie(['addBound', 'addSamples', 'sampleShell', 'shellAssociation'])]
 FILES = ['nautilus/sampler.py']
 INVARIANTS = ['inshells', 'tlast', 'nodup', 'run']
 
